@@ -64,6 +64,10 @@ pub struct Case {
     /// C03: polls of the combinator *after* it produced its final result
     /// (allowed to panic or answer anything, but not to poll a child)
     pub post_polls: u8,
+    /// storm mode: no scripted fires; after every poll the current wakers of
+    /// all pending children are handed to helper THREADS that invoke them
+    /// while the task is already being polled again (truly concurrent wake-ups)
+    pub storm: bool,
 }
 
 impl CombSpec {
@@ -160,6 +164,6 @@ impl Case {
             acts.join(" "),
             if self.no_drain { " (no drain)" } else { " then fair drain" },
             if self.fair_polls > 0 { format!(" fair_polls={}", self.fair_polls) } else { String::new() }
-        ) + &(if self.post_polls > 0 { format!(" then {} poll(s) after the final result", self.post_polls) } else { String::new() })
+        ) + if self.storm { " [storm: wakers fired concurrently from helper threads]" } else { "" } + &(if self.post_polls > 0 { format!(" then {} poll(s) after the final result", self.post_polls) } else { String::new() })
     }
 }
